@@ -113,7 +113,8 @@ namespace GeographicLib {
       mult *= amult;
       real
         r = _cCx[n],                                       // the model term
-        s = - mult * _earth.Jn(n) / sqrt(real(2 * n + 1)), // the normal term
+        s = - mult * _earth.Jn(n) /
+        (_norm == SphericalHarmonic::FULL ? sqrt(real(2 * n + 1)) : real(1)), // the normal term
         t = r - s;                                         // the difference
       if (t == r)               // the normal term is negligible
         break;
